@@ -31,10 +31,10 @@ PROPS = {
     "C06": dict(quick_checks=8000, fuzz=["FuzzC06"]),
     "C07": dict(quick_checks=8000),
     "C08": dict(quick_checks=2500, thorough_checks=20000),
-    "C09": dict(quick_checks=4000, thorough_checks=30000),
+    "C09": dict(quick_checks=4000, thorough_checks=30000, enum=True),
     "C10": dict(quick_checks=4000, enum=True),
     "C11": dict(quick_checks=4000, thorough_checks=15000),
-    "C12": dict(quick_checks=2500, thorough_checks=15000),
+    "C12": dict(quick_checks=2500, thorough_checks=15000, enum=True),
     "C13": dict(quick_checks=3000, thorough_checks=20000, enum=True),
     "C14": dict(quick_checks=3000, thorough_checks=20000, race_thorough=True, enum=True),
     "C15": dict(quick_checks=2500, thorough_checks=15000, race_thorough=True),
